@@ -13,7 +13,7 @@ import math
 
 from ..common import new_result, run_limited, viol
 from ..scripted import ScriptedGenerator
-from .c11 import Ref, dist_text
+from .c11 import DiscretisedSZ, Ref, dist_text
 
 ANCHORS = ["src/gbigsmiles/stochastic.py", "src/gbigsmiles/distribution.py"]
 LEVEL_RULE = (
@@ -31,7 +31,7 @@ CASE_TIMEOUT = {"quick": 900, "thorough": 3000}
 CASES = {
     "quick": [
         ("gauss", (100.0, 30.0)), ("gauss", (20.0, 60.0)), ("uniform", (12, 172)), ("uniform", (100, 101)),
-        ("schulz_zimm", (150.0, 120.0)), ("schulz_zimm", (400.0, 300.0)), ("log_normal", (90.0, 1.3)), ("log_normal", (300.0, 1.05)),
+        ("schulz_zimm", (150.0, 120.0)), ("schulz_zimm", (400.0, 300.0)), ("schulz_zimm", (400.0, 200.0)), ("log_normal", (90.0, 1.3)), ("log_normal", (300.0, 1.05)),
         ("poisson", (65.0,)), ("poisson", (250.0,)), ("flory_schulz", (0.1,)), ("flory_schulz", (0.02,)),
     ],
     "thorough": [
@@ -109,6 +109,7 @@ def eval_case(kind, data):
         grid = [0.004] + grid + [0.99, 0.998]  # product grids are coarse: the tails are added explicitly
     shared = gbigsmiles.Molecule(text) if data.get("reuse") else None
     hist = {}
+    dsz_cache = {}
     skipped = 0
     failed_draws = 0
     seam = {"gauss": "standard_normal", "poisson": "poisson", "uniform": "uniform", "flory_schulz": "uniform", "schulz_zimm": "uniform", "log_normal": "uniform"}
@@ -187,6 +188,21 @@ def eval_case(kind, data):
             got.append(sum(1 for n in mg.graph.nodes if mg.graph.nodes[n]["big_smiles"] == ustr))
         hist[tuple(got)] = hist.get(tuple(got), 0) + 1
         if got != exp:
+            # Schulz-Zimm draws invert the partial sums of the density on integer masses (C11's recorded discretisation
+            # finding): a block size that is exactly what THAT inverse implies is that finding, not a new one
+            alt = list(exp)
+            for i, ((f_, p_), u_) in enumerate(zip(laws, us)):
+                if f_ == "schulz_zimm" and got[i] != exp[i]:
+                    key_ = (f_, tuple(p_))
+                    if key_ not in dsz_cache:
+                        dsz_cache[key_] = DiscretisedSZ(Ref(f_, tuple(p_)))
+                    t_alt = dsz_cache[key_].ppf(u_)
+                    if t_alt is not None:
+                        alt[i] = expected_units(t_alt, masses[i])
+            if got == alt:
+                res["extra"]["schulz_zimm_blocks_following_the_discretised_inverse"] = res["extra"].get("schulz_zimm_blocks_following_the_discretised_inverse", 0) + 1
+                hist[tuple(got)] = hist.get(tuple(got), 0)
+                continue
             which = next(i for i in range(len(laws)) if got[i] != exp[i])
             f, p = laws[which]
             viol(
